@@ -37,8 +37,9 @@ MStep ==
          modNames == UNION {NamesOfCell(se, c) : c \in {x \in wrCells : cells'[x] # Unbound}}
          delNames == UNION {NamesOfCell(se, c) : c \in {x \in wrCells : cells'[x] = Unbound}}
          readBad == readNames \ ARead(f, n)
-         modBad  == IF sn = 0 THEN {} ELSE modNames \ AMod(sf, sn)
-         delBad  == IF sn = 0 THEN {} ELSE delNames \ (ADel(sf, sn) \cup AMod(sf, sn))
+         \* binding / unbinding of an `except E as name` variable happens on entering / leaving the handler, not in a statement
+         modBad  == IF sn = 0 THEN {} ELSE (modNames \ Range(P.hnames)) \ AMod(sf, sn)
+         delBad  == IF sn = 0 THEN {} ELSE (delNames \ Range(P.hnames)) \ (ADel(sf, sn) \cup AMod(sf, sn))
      IN
      bad' = IF bad # "" THEN bad
             ELSE IF readBad # {} THEN ToString(<<"read", f, n, CHOOSE x \in readBad : TRUE>>)
